@@ -19,9 +19,13 @@ Abstract program (JSON-able dict, so it can be written into replay files as is):
   creation order; realisations are free to create nodes in any order compatible with the dataflow).
 * `op` ∈ arg, init, Constant, Add, Mul, Neg, Abs, Identity, Not, Less, Cast, Where, Concat (variadic),
   Clip (inner / trailing optional inputs), ReduceSum (trailing optional input omitted),
-  Split (multi-output, optional `split` input), TopK (multi-output), If (subs = [then, else]),
+  Split (multi-output, optional `split` input), TopK (multi-output), Reshape (to rank 1),
+  Scan (ins = states + scan inputs; body args = state formals + slice formals; body res = states +
+  scan-output slices), If (subs = [then, else]),
   Loop (ins = [M?, cond?, state...]; subs = [body]; body args = [iter, cond, state...];
   body res = [cond, state..., scan...]; outputs = final states then stacked scan outputs).
+* Constant / init nodes carry `attrs.layout` ∈ C, T, F, strided, rev, broadcast: the memory layout of
+  the source ndarray handed to spox (`layout_view`); the logical value is `attrs.value`.
 * `arg` nodes with attrs.role == "main" are the model inputs (named `in<id>`); role "formal" are
   body formals.  A body may refer to any older node (closure); a node that depends on a formal is
   only ever used inside that formal's body (leak-free by construction).
@@ -65,9 +69,10 @@ ONNX_NAME = {
     "Constant": "Constant", "Add": "Add", "Mul": "Mul", "Neg": "Neg", "Abs": "Abs",
     "Identity": "Identity", "Not": "Not", "Less": "Less", "Cast": "Cast", "Where": "Where",
     "Concat": "Concat", "Clip": "Clip", "ReduceSum": "ReduceSum", "Split": "Split", "TopK": "TopK",
-    "If": "If", "Loop": "Loop",
+    "If": "If", "Loop": "Loop", "Scan": "Scan", "Reshape": "Reshape",
 }
-SUB_ATTRS = {"If": ["then_branch", "else_branch"], "Loop": ["body"]}
+SUB_ATTRS = {"If": ["then_branch", "else_branch"], "Loop": ["body"], "Scan": ["body"]}
+LAYOUTS = ["C", "T", "F", "strided", "rev", "broadcast"]
 
 MAG_INT = 2 ** 40
 MAG_FLOAT = 1e25
@@ -105,7 +110,7 @@ def bshape(a, b):
             return None
         if len(o[1]) == 0:
             return [], True
-        if len(o[1]) == 1 and o[1][0] >= 1:
+        if len(o[1]) >= 1 and all(d >= 1 for d in o[1]):
             return list(o[1]), False
         return None
     if a[1] == b[1] and concrete(a):
@@ -126,6 +131,7 @@ class _Gen:
         self.nodes: list[dict] = []
         self.dep: list[frozenset] = []
         self.uniq = 0
+        self.bias = False  # prefer values that depend on body formals (sharing below a body)
 
     # -- node creation
     def add(self, op, ins=(), subs=(), attrs=None, tys=(), extra_dep=frozenset()):
@@ -168,14 +174,22 @@ class _Gen:
         """Bias towards recent values (depth) while keeping old ones in play (sharing)."""
         if not cands:
             return None
+        if self.bias:
+            sub = [c for c in cands if self.dep[c[0]]]
+            if sub:
+                return self.rng.choice(sub)
         if self.rng.random() < 0.6:
             return cands[-1 - min(len(cands) - 1, int(self.rng.expovariate(0.5)))]
         return self.rng.choice(cands)
 
-    def const_value(self, t):
+    def const_value(self, t, layout="C"):
         self.uniq += 1
         shape = [d if d is not None else 2 for d in t[1]]
         n = int(np.prod(shape)) if shape else 1
+        if layout == "broadcast":  # all leading-axis slices equal: the source is a broadcast view
+            inner = n // shape[0]
+            row = self.const_value(ty(t[0], shape[1:]))
+            return row[:inner] * shape[0]
         if t[0] == "bool":
             vals = [bool((self.uniq + i) % 2) for i in range(n)]
         elif t[0] == "i64":
@@ -187,7 +201,11 @@ class _Gen:
     def make_const(self, t, init_ok=True):
         t = ty(t[0], [d if d is not None else 2 for d in t[1]])
         op = "init" if (init_ok and self.rng.random() < 0.35) else "Constant"
-        k = self.add(op, attrs={"value": self.const_value(t), "uid": self.uniq}, tys=[t])
+        # how the source ndarray handed to spox is laid out in memory (its logical value is `value`)
+        layout = "C"
+        if t[1] and self.rng.random() < 0.6:
+            layout = self.rng.choice([l for l in LAYOUTS[1:] if len(t[1]) >= 2 or l not in ("T", "F")])
+        k = self.add(op, attrs={"value": self.const_value(t, layout), "uid": self.uniq, "layout": layout}, tys=[t])
         return (k, 0)
 
     def find_or_make(self, active, t, prefer_from: int = 0, p_reuse=0.85):
@@ -209,12 +227,27 @@ class _Gen:
     def gen_op(self, active: frozenset, depth: int) -> None:
         rng = self.rng
         num = lambda u: u[0] in NUMERIC  # noqa: E731
+        self.bias = bool(active) and rng.random() < 0.4
+        deep = depth < self.max_depth
         choice = rng.choices(
-            ["un", "bin", "less", "cast", "where", "concat", "clip", "rsum", "split", "topk", "const", "if", "loop"],
-            [14, 22, 6, 8, 7, 7, 8, 5, 6, 5, 5, 9 if depth < self.max_depth else 0, 8 if depth < self.max_depth else 0],
+            ["un", "bin", "less", "cast", "where", "concat", "clip", "rsum", "split", "topk", "const", "flat", "if", "loop", "scan"],
+            [14, 22, 6, 8, 7, 7, 8, 5, 6, 5, 6, 5, 10 if deep else 0, 7 if deep else 0, 4 if deep else 0],
         )[0]
         if choice == "const":
-            self.make_const(rng.choice([ty("i64", [N]), ty("f32", [N]), ty("i64", []), ty("f32", []), ty("bool", [N])]))
+            self.make_const(rng.choice([ty("i64", [N]), ty("f32", [N]), ty("i64", []), ty("f32", []), ty("bool", [N]),
+                                        ty("i64", [2, N]), ty("f32", [N, 2]), ty("i64", [2, 2, N])]))
+            return
+        if choice == "flat":
+            x = self.pick(self.usable(active, lambda u: not u[2] and concrete(u) and len(u[1]) >= 2))
+            if x is None:
+                x = self.make_const(rng.choice([ty("i64", [2, N]), ty("f32", [N, 2])]))
+            t = self.tyof(x)
+            self.uniq += 1
+            sh = self.add("Constant", attrs={"value": [-1], "uid": self.uniq}, tys=[ty("i64", [1])])
+            self.add("Reshape", [x, (sh, 0)], tys=[ty(t[0], [int(np.prod(t[1]))])])
+            return
+        if choice == "scan":
+            self.gen_scan(active, depth)
             return
         if choice == "un":
             a = self.pick(self.usable(active))
@@ -423,10 +456,53 @@ class _Gen:
         self.add("Loop", [m, cond0] + inits, [body], tys=tys)
 
 
+def _gen_scan(self, active, depth):
+    """Scan: ins = states + scan inputs; body args = state formals + slice formals;
+    body res = states + scan output slices; outputs = final states + stacked scan outputs."""
+    rng = self.rng
+    states = self.result_types(active, rng.choice([0, 1, 1, 2]))
+    inits = [self.find_or_make(active, t) for t in states]
+    # scan inputs: concrete rank >= 1, common leading length
+    first = self.pick(self.usable(active, lambda u: not u[2] and concrete(u) and len(u[1]) >= 1 and u[1][0] >= 1))
+    if first is None:
+        first = self.make_const(ty("i64", [2, N]))
+    T = self.tyof(first)[1][0]
+    scans_in = [first]
+    if rng.random() < 0.4:
+        c = self.usable(active, lambda u: not u[2] and concrete(u) and len(u[1]) >= 1 and u[1][0] == T)
+        scans_in.append(self.pick(c))
+    formals = [self.add("arg", attrs={"role": "formal"}, tys=[t]) for t in states]
+    for r in scans_in:
+        t = self.tyof(r)
+        formals.append(self.add("arg", attrs={"role": "formal"}, tys=[ty(t[0], t[1][1:])]))
+    for f in formals:
+        self.dep[f] = frozenset([f])
+    inner = active | frozenset(formals)
+    start = len(self.nodes)
+    self.gen_block(inner, depth + 1, rng.choice([1, 2, 3, 4, 5]))
+    sres = [self.find_or_make(inner, t, prefer_from=start) for t in states]
+    outs = []
+    for _ in range(rng.choice([0, 1, 1, 2]) if states else rng.choice([1, 2])):
+        c = [r for r in self.usable(inner, lambda u: not u[2] and concrete(u) and len(u[1]) <= 1)]
+        fresh = [r for r in c if r[0] >= start]
+        r = rng.choice(fresh) if fresh and rng.random() < 0.8 else self.pick(c)
+        if r is not None:
+            outs.append(r)
+    if not states and not outs:
+        outs.append((formals[-1], 0) if len(self.tyof((formals[-1], 0))[1]) <= 1 else self.make_const(ty("i64", [N])))
+    body = {"args": formals, "res": sres + outs}
+    tys = list(states) + [ty(self.tyof(r)[0], [T] + self.tyof(r)[1]) for r in outs]
+    self.add("Scan", inits + scans_in, [body], attrs={"num_scan_inputs": len(scans_in)}, tys=tys)
+
+
+_Gen.gen_scan = _gen_scan
+
+
 def gen_program(rng: random.Random, size: int = 20, max_depth: int = 3, opset: int = 17) -> dict:
     """A seeded random, well-typed, leak-free program with about `size` nodes."""
     g = _Gen(rng, size, max_depth)
-    kinds = [ty("i64", [N]), ty("f32", [N]), ty("i64", []), ty("bool", []), ty("bool", [N]), ty("f32", [])]
+    kinds = [ty("i64", [N]), ty("f32", [N]), ty("i64", []), ty("bool", []), ty("bool", [N]), ty("f32", []),
+             ty("i64", [2, N]), ty("f32", [N, 2])]
     chosen = [kinds[0], kinds[rng.randrange(2)]] + [rng.choice(kinds) for _ in range(rng.randint(0, 3))]
     rng.shuffle(chosen)
     for t in chosen:
@@ -559,6 +635,7 @@ def typecheck(prog) -> list[str]:
             elif op in ("init", "Constant"):
                 cnt = int(np.prod(out[0][1])) if out[0][1] else 1
                 ok = not ins and concrete(out[0]) and not out[0][2] and len(n["attrs"]["value"]) == cnt
+                ok = ok and n["attrs"].get("layout", "C") in LAYOUTS
             elif op in ("Add", "Mul", "Less"):
                 a, b = T(ins[0]), T(ins[1])
                 sh = bshape(a, b)
@@ -599,6 +676,27 @@ def typecheck(prog) -> list[str]:
                 kv = const_of(ins[1])
                 ok = (x[0] in NUMERIC and not x[2] and concrete(x) and len(x[1]) == 1 and kv is not None and len(kv) == 1
                       and 1 <= kv[0] <= x[1][0] and same_ty(out[0], ty(x[0], [kv[0]])) and same_ty(out[1], ty("i64", [kv[0]])))
+            elif op == "Reshape":
+                x = T(ins[0])
+                ok = (not x[2] and concrete(x) and len(x[1]) >= 1 and const_of(ins[1]) == [-1]
+                      and same_ty(out[0], ty(x[0], [int(np.prod(x[1]))])))
+            elif op == "Scan":
+                body = n["subs"][0]
+                m = n["attrs"]["num_scan_inputs"]
+                its = [T(r) for r in ins]
+                states, sin = its[: len(its) - m], its[len(its) - m:]
+                ns = len(states)
+                ok = m >= 1 and all(not t[2] and concrete(t) for t in its) and all(len(t[1]) >= 1 for t in sin)
+                ok = ok and len({t[1][0] for t in sin}) == 1
+                fts = [nodes[a]["ty"][0] for a in body["args"]]
+                ok = ok and len(fts) == len(its) and all(same_ty(f, t) for f, t in zip(fts, states))
+                ok = ok and all(same_ty(f, ty(t[0], t[1][1:])) for f, t in zip(fts[ns:], sin))
+                rts = [T(r) for r in body["res"]]
+                ok = ok and len(rts) >= ns and all(same_ty(r, t) for r, t in zip(rts[:ns], states))
+                so = rts[ns:]
+                ok = ok and all(not t[2] and concrete(t) and len(t[1]) <= 1 for t in so)
+                ok = ok and len(out) == ns + len(so) and all(same_ty(o, t) for o, t in zip(out, states))
+                ok = ok and all(same_ty(o, ty(t[0], [sin[0][1][0]] + t[1])) for o, t in zip(out[ns:], so))
             elif op == "If":
                 ok = same_ty(T(ins[0]), ty("bool", [])) and len(n["subs"]) == 2 and all(
                     not s["args"] and len(s["res"]) == len(out) and all(same_ty(T(r), t) and concrete(t) for r, t in zip(s["res"], out))
@@ -736,6 +834,25 @@ def eval_numpy(prog, binding: dict[int, np.ndarray]):
                 kk = int(inp(1).reshape(-1)[0])
                 order = np.argsort(-x.astype(np.float64) if x.dtype != np.int64 else -x, kind="stable")[:kk]
                 out = [x[order], order.astype(np.int64)]
+            elif op == "Reshape":
+                out = [np.asarray(inp(0)).reshape(-1)]
+            elif op == "Scan":
+                body = n["subs"][0]
+                m = n["attrs"]["num_scan_inputs"]
+                allin = [inp(j) for j in range(len(n["ins"]))]
+                state, sin = allin[: len(allin) - m], allin[len(allin) - m:]
+                ns = len(state)
+                nso = len(body["res"]) - ns
+                acc: list[list] = [[] for _ in range(nso)]
+                for t_ in range(sin[0].shape[0]):
+                    lv2 = _Level(frozenset(body["args"]), L)
+                    for a, v in zip(body["args"], state + [np.asarray(z[t_]) for z in sin]):
+                        lv2.vals[a] = [v]
+                    res = [ev(r[0], lv2)[r[1]] for r in body["res"]]
+                    state = res[:ns]
+                    for s_, v in zip(acc, res[ns:]):
+                        s_.append(np.asarray(v))
+                out = list(state) + [np.stack(s_, axis=0) for s_ in acc]
             elif op == "If":
                 c = bool(np.asarray(inp(0)).reshape(-1)[0])
                 body = n["subs"][0 if c else 1]
@@ -818,6 +935,32 @@ def binding_from_json(prog, j):
 
 # ----------------------------------------------------------------------------------- realiser
 STYLES = ["lazy", "eager", "mixed", "mixed-extras", "eager-shuffled", "lazy-extras"]
+
+
+def layout_view(arr: np.ndarray, layout: str) -> np.ndarray:
+    """An ndarray with the same logical value as `arr` whose memory is not laid out C-contiguously:
+    T (transpose of a C array), F (Fortran order), strided (every other element of a wider buffer),
+    rev (negative stride on the last axis), broadcast (stride 0 on the first axis; the value must have
+    equal slices)."""
+    if arr.ndim == 0 or layout == "C":
+        return arr
+    if layout == "T":
+        v = np.ascontiguousarray(arr.T).T
+    elif layout == "F":
+        v = np.asfortranarray(arr)
+    elif layout == "strided":
+        big = np.zeros(arr.shape[:-1] + (2 * arr.shape[-1],), dtype=arr.dtype)
+        big[..., ::2] = arr
+        v = big[..., ::2]
+    elif layout == "rev":
+        v = np.ascontiguousarray(arr[..., ::-1])[..., ::-1]
+    elif layout == "broadcast":
+        v = np.broadcast_to(np.ascontiguousarray(arr[0]), arr.shape)
+    else:
+        raise HarnessError(f"unknown layout {layout}")
+    if not np.array_equal(v, arr) or v.shape != arr.shape:
+        raise HarnessError(f"layout {layout} does not preserve the value")
+    return v
 
 
 class Realised:
@@ -938,9 +1081,13 @@ def realise(prog, rng: random.Random, style: str = "lazy") -> Realised:
             return cb
 
         if o == "init":
-            outs = [initializer(np_const(n))]
+            outs = [initializer(layout_view(np_const(n), n["attrs"].get("layout", "C")))]
         elif o == "Constant":
-            outs = [op.constant(value=np_const(n))]
+            outs = [op.constant(value=layout_view(np_const(n), n["attrs"].get("layout", "C")))]
+        elif o == "Reshape":
+            outs = [op.reshape(a[0], a[1])]
+        elif o == "Scan":
+            outs = list(op.scan(a, body=callback(n["subs"][0]), num_scan_inputs=n["attrs"]["num_scan_inputs"]))
         elif o == "Add":
             outs = [op.add(a[0], a[1])]
         elif o == "Mul":
@@ -1559,7 +1706,7 @@ def _substitute(prog, k: int, i: int, new) -> dict:
         return list(new) if r is not None and r[0] == k and r[1] == i else r
 
     for n in p["nodes"]:
-        fixed = 1 if n["op"] in ("Split", "TopK") else None  # sizes / K must stay the constant
+        fixed = 1 if n["op"] in ("Split", "TopK", "Reshape") else None  # sizes / K / shape stay the constant
         n["ins"] = [r if j == fixed else sub(r) for j, r in enumerate(n["ins"])]
         for s in n["subs"]:
             s["res"] = [sub(r) for r in s["res"]]
